@@ -239,6 +239,14 @@ impl<H: Hasher> BatchMerkleProof<H> {
                 i += 1;
             }
         }
+
+        // make sure all nodes of the proof have been used
+        for (nodes, &pointer) in self.nodes.iter().zip(proof_pointers.iter()) {
+            if nodes.len() != pointer {
+                return Err(MerkleTreeError::InvalidProof);
+            }
+        }
+
         v.remove(&1).ok_or(MerkleTreeError::InvalidProof)
     }
 
